@@ -3,6 +3,7 @@ package main
 import (
 	"time"
 
+	ctime "verif/harness/internal/clock/time"
 	opb "verif/harness/internal/orders/pb"
 	upb "verif/harness/internal/users/pb"
 )
@@ -94,4 +95,17 @@ type WTwo struct {
 
 func wtwo() WTwo {
 	return WTwo{O: opb.Item{S: "abc", N: 7}, U: upb.Item{S: "abc", N: 7}, Us: []upb.Item{{S: "abc", N: 7}}}
+}
+
+// a user struct type that prints "time.Time" (package verif/harness/internal/clock/time), next to the real one
+type WClock struct {
+	At    ctime.Time   `valid:"required|T63"`
+	P     *ctime.Time  `valid:"exist"`
+	Ls    []ctime.Time `valid:"exist"`
+	Real  time.Time    `valid:"required|T64"` // the standard library's type: never validated
+	After string       `valid:"eq=4|T65"`     // "abc": violated; declared after the time fields
+}
+
+func wclock() WClock {
+	return WClock{At: ctime.Time{S: "abc", N: 7}, P: &ctime.Time{S: "abc", N: 7}, Ls: []ctime.Time{{S: "abc", N: 7}}, After: "abc"}
 }
